@@ -7,6 +7,8 @@ PROPS = 'Props/C02.v' if os.path.exists(os.path.join(CC.COQ, 'Props/C02.v')) els
 
 
 def judge(ck, c, r, I, M, S, sup):
+    if c['stream'] == 'abc-spelling' and S == 1 and I != 0:
+        return f'a conforming value was rejected under the collections.abc / collections spelling of a generic ({CC.OUT_NAMES.get(I, I)})'
     if not sup:
         return None
     if S == 1 and I != 0:
@@ -20,5 +22,10 @@ def judge(ck, c, r, I, M, S, sup):
 
 
 def run(tier, seed, replay=None):
-    return CC.run('C02', tier, seed, replay, PROPS, judge, rule_extra=' (every annotation also in an equivalent spelling: typing<->builtin alias, '
+    def extra(ck, cases):
+        if replay is None or replay.get('case', {}).get('obs') == 'named':
+            CC.named_stream(ck, 'complete')
+        if replay is not None and replay.get('case', {}).get('obs') == 'named':
+            cases.clear()
+    return CC.run('C02', tier, seed, replay, PROPS, judge, extra_streams=extra, rule_extra=' (every annotation also in an equivalent spelling: typing<->builtin alias, '
                   'Union/Optional/|, permuted members)')
